@@ -1,5 +1,5 @@
 """Property -> rules registry.  (rule function, ports) ; ports None = rule handles ports itself."""
-from .rules import sk, wr, conf
+from .rules import sk, wr, conf, lk, cs
 
 BOTH = ('py', 'js')
 PY = ('py',)
@@ -18,6 +18,16 @@ PROPS = {
     'C02': {
         'rules': [(wr.rule_wr_ret, BOTH), (wr.rule_wr_prop, BOTH), (wr.rule_wr_fin, BOTH), (wr.rule_wr_top, BOTH), (wr.rule_wr_uniq, BOTH), (wr.rule_wr_ucnt, BOTH), (wr.rule_wr_sort, BOTH), (wr.rule_wr_aggw, BOTH),
                   (conf.rule_pa_conf, BOTH), (conf.rule_wr_order, BOTH), (conf.rule_pa_excl, BOTH), (conf.rule_pa_hdrcall, BOTH), (conf.rule_hd_arity, BOTH), (conf.rule_pa_with, BOTH), (conf.rule_rs_proto, BOTH)],
+        'explanation': 'x',
+        'not_decided': 'y',
+    },
+    'C17': {
+        'rules': [(lk.rule_lk_taint, BOTH), (lk.rule_lk_map, BOTH), (lk.rule_lk_anchor, BOTH), (lk.rule_lk_part, BOTH), (lk.rule_lk_cache, BOTH), (lk.rule_rx_jsesc, None)],
+        'explanation': 'x',
+        'not_decided': 'y',
+    },
+    'C11': {
+        'rules': [(cs.rule_rx_field, BOTH), (cs.rule_rx_newline, BOTH), (cs.rule_rx_ws, BOTH), (cs.rule_cs_trigger, BOTH), (cs.rule_cs_accept, BOTH), (cs.rule_cs_width, BOTH), (cs.rule_cs_extws, BOTH), (cs.rule_cs_dispatch, BOTH), (cs.rule_cs_writer, BOTH)],
         'explanation': 'x',
         'not_decided': 'y',
     },
